@@ -375,7 +375,7 @@ fn count_spreads(doc: &Doc) -> u64 {
 /// secondary evidence, never judged: per family the parse time per byte and the execute time per unit of work
 #[derive(Default)]
 struct Timing {
-    /// family -> (bytes, parse ns, work, execute ns)
+    /// family -> (bytes, parse ns, work of rejected requests, their execute ns)
     sums: IndexMap<String, (u64, u128, u64, u128)>,
 }
 
@@ -396,7 +396,9 @@ fn sample(env: &Env, f: Family, p: usize, k: Knobs, l: Limits, timing: &std::cel
     {
         let mut t = timing.borrow_mut();
         let e = t.sums.entry(format!("{:?}", f)).or_default();
-        *e = (e.0 + text.len() as u64, e.1 + parse_ns, e.2 + obs.work, e.3 + obs.wall_ns);
+        // execute time only of rejected requests: it then is the time of the checks alone
+        let (w, ns) = if obs.errors.is_empty() { (0, 0) } else { (obs.work, obs.wall_ns) };
+        *e = (e.0 + text.len() as u64, e.1 + parse_ns, e.2 + w, e.3 + ns);
     }
     let inlined: u64 = doc.ops().map(|o| inlined_selections(&doc, &o.sel)).fold(0u64, |a, b| a.saturating_add(b));
     Ok(Sample { p, size: text.len() as u64, work: obs.work, inlined, spreads: count_spreads(&doc) })
@@ -460,9 +462,11 @@ pub fn run(ctx: &mut Ctx) {
 
     // random members of the polynomial families
     let n_fam = ctx.tier.pick(500, 15_000);
+    // upper end of the base parameter of the random family members (quick: documents below ~100 KiB)
+    let base_cap = ctx.tier.pick(64, 256);
     ctx.stream("families", n_fam, 16, |s| {
         let f = POLY_FAMILIES[s.choose(POLY_FAMILIES.len())];
-        let p0 = 1 + s.choose((f.cap() / 4).min(BASE_CAP));
+        let p0 = 1 + s.choose((f.cap() / 4).min(base_cap));
         let k = Knobs { w: 1 + s.choose(3), variant: s.choose(6) };
         let l = Limits {
             depth: *vcore::gens::pick(s, &[100, 3, 70]),
@@ -529,7 +533,7 @@ pub fn run(ctx: &mut Ctx) {
         .borrow()
         .sums
         .iter()
-        .map(|(k, v)| (k.clone(), serde_json::json!({"bytes": v.0, "parse_ns_per_byte": v.1 as f64 / v.0.max(1) as f64, "work": v.2, "execute_ns_per_work_unit": v.3 as f64 / v.2.max(1) as f64})))
+        .map(|(k, v)| (k.clone(), serde_json::json!({"bytes": v.0, "parse_ns_per_byte": v.1 as f64 / v.0.max(1) as f64, "work_of_rejected_requests": v.2, "rejected_request_ns_per_work_unit": v.3 as f64 / v.2.max(1) as f64})))
         .collect();
     ctx.note("secondary_timing_wall_clock_not_a_verdict", serde_json::Value::Object(per_family));
     for f in POLY_FAMILIES {
@@ -540,6 +544,3 @@ pub fn run(ctx: &mut Ctx) {
     ctx.floor("executed", 200);
     ctx.floor("document>=4KiB", 30);
 }
-
-/// upper end of the base parameter of the random family members (keeps their documents below ~100 KiB)
-const BASE_CAP: usize = 64;
